@@ -33,15 +33,15 @@ func (k Kind) String() string {
 type Role uint8
 
 const (
-	None Role = iota
-	Sens      // client-supplied literal in a zone value position
-	Ref       // "$field" reference / variable
-	Keep      // must come out identical
-	Free      // operational parameter, only shape is judged
-	NsDB      // database name at a namespace-bearing position
-	NsColl    // collection name at a namespace-bearing position
-	NsFull    // "db.coll" string
-	Remote    // attr.remote
+	None   Role = iota
+	Sens        // client-supplied literal in a zone value position
+	Ref         // "$field" reference / variable
+	Keep        // must come out identical
+	Free        // operational parameter, only shape is judged
+	NsDB        // database name at a namespace-bearing position
+	NsColl      // collection name at a namespace-bearing position
+	NsFull      // "db.coll" string
+	Remote      // attr.remote
 )
 
 func (r Role) String() string {
@@ -64,12 +64,12 @@ type Node struct {
 	T    *Tag
 }
 
-func NullN() *Node           { return &Node{K: Null} }
-func BoolN(b bool) *Node     { return &Node{K: Bool, B: b} }
-func NumN(raw string) *Node  { return &Node{K: Num, S: raw} }
-func IntN(i int) *Node       { return &Node{K: Num, S: strconv.Itoa(i)} }
-func StrN(s string) *Node    { return &Node{K: Str, S: s} }
-func ArrN(e ...*Node) *Node  { return &Node{K: Arr, Vals: e} }
+func NullN() *Node          { return &Node{K: Null} }
+func BoolN(b bool) *Node    { return &Node{K: Bool, B: b} }
+func NumN(raw string) *Node { return &Node{K: Num, S: raw} }
+func IntN(i int) *Node      { return &Node{K: Num, S: strconv.Itoa(i)} }
+func StrN(s string) *Node   { return &Node{K: Str, S: s} }
+func ArrN(e ...*Node) *Node { return &Node{K: Arr, Vals: e} }
 func ObjN(kv ...any) *Node {
 	n := &Node{K: Obj}
 	for i := 0; i+1 < len(kv); i += 2 {
